@@ -369,6 +369,61 @@ let merge_mode path =
          let n = String.length line in
          let rec find i = if i + 4 > n then n else if String.sub line i 4 = " => " then i else find (i + 1) in
          String.sub line 0 (find 0) in
+       let is_seq = String.length lhs >= 2 && String.sub lhs 0 2 = "S " in
+       let lhs = if String.length lhs >= 2 && (String.sub lhs 0 2 = "S " || String.sub lhs 0 2 = "C ") then String.sub lhs 2 (String.length lhs - 2) else lhs in
+       let line = if String.length line >= 2 && (String.sub line 0 2 = "S " || String.sub line 0 2 = "C ") then String.sub line 2 (String.length line - 2) else line in
+       if is_seq then begin
+         (* the items of a sequence: literals, everything else by its place *)
+         let strs = Array.of_list (split ' ' lhs) in
+         let items = List.mapi (fun i s -> match alt_of s with MLit (rs, ic) -> ILit (rs, ic) | _ -> IOther (nat_of_int i)) (Array.to_list strs) in
+         let out = String.concat " " (List.map (function
+           | ILit (rs, ic) -> show (MLit (rs, ic))
+           | IOther k -> show (cleanup (alt_of strs.(int_of_nat k)))) (optimize_seq items)) in
+         let n = String.length line and k = String.length lhs in
+         let rhs = if k + 4 <= n then String.sub line (k + 4) (n - k - 4) else out in
+         if rhs = out || (String.length rhs >= 5 && String.sub rhs 0 5 = "PANIC") then print_endline out
+         else begin
+           (* the real optimizer left something else: look for an input the two sequences treat differently *)
+           let written = List.map alt_of (Array.to_list strs) and real = List.map alt_of (split ' ' rhs) in
+           let lower a = lower_alt ulib a in
+           let rec sem l inp = match l with
+             | [] -> 0
+             | a :: rest ->
+                 let k = (match lower a, inp with
+                   | MAny, _ :: _ -> 1
+                   | MAny, [] -> -1
+                   | MCls (cs, rs, ks, ic, inv), r :: _ -> if class_decide ulib cs rs ks ic inv r then 1 else -1
+                   | MCls _, [] -> -1
+                   | MLit (ws, ic), _ ->
+                       let rec pre ws inp = match ws, inp with
+                         | [], _ -> true
+                         | w :: ws', r :: inp' -> int_of_z (if ic then ulib.to_lower r else r) = int_of_z w && pre ws' inp'
+                         | _ :: _, [] -> false in
+                       if pre ws inp then List.length ws else -1) in
+                 if k < 0 then -1 else
+                   let rec drop k l = if k = 0 then l else match l with [] -> [] | _ :: t -> drop (k - 1) t in
+                   let r = sem rest (drop k inp) in if r < 0 then -1 else k + r in
+           let pool = List.map z_of_int [97; 98; 99; 65; 66; 48; 49; 43; 233; 75; 45; 93; 94; 120; 0; 955] in
+           (* an input the sequence matches, when the pool has runes for its classes *)
+           let rec witness l = match l with
+             | [] -> Some []
+             | a :: rest ->
+                 (match witness rest with
+                  | None -> None
+                  | Some tail ->
+                      (match lower a with
+                       | MAny -> Some (z_of_int 120 :: tail)
+                       | MLit (ws, _) -> Some (ws @ tail)
+                       | MCls (cs, rs, ks, ic, inv) ->
+                           (match List.filter (fun r -> class_decide ulib cs rs ks ic inv r) pool with
+                            | r :: _ -> Some (r :: tail)
+                            | [] -> None))) in
+           let cands = List.filter_map (fun x -> x) [witness written; witness real] in
+           let cands = cands @ List.map (fun c -> List.map ulib.to_upper c) cands in
+           let bad = List.filter (fun inp -> sem written inp <> sem real inp) cands in
+           Printf.printf "%s\tMISMATCH\t%s\n" out (match bad with [] -> "none" | inp :: _ -> "runes:" ^ ints inp)
+         end
+       end else
        let alts = List.map alt_of (split ' ' lhs) in
        let out = String.concat " " (List.map show (optimize_choice alts)) in
        let n = String.length line and k = String.length lhs in
